@@ -1183,9 +1183,12 @@ func (gs *GossipSubRouter) handlePrune(p peer.ID, ctl *pb.ControlMessage) {
 			continue
 		}
 
-		gs.logger.Debug("PRUNE: Remove mesh link to peer in topic", "peer", p, "topic", topic)
-		gs.tracer.Prune(p, topic)
-		delete(peers, p)
+		// only a mesh member is removed (and reported as pruned); the backoff is obeyed regardless
+		if _, inMesh := peers[p]; inMesh {
+			gs.logger.Debug("PRUNE: Remove mesh link to peer in topic", "peer", p, "topic", topic)
+			gs.tracer.Prune(p, topic)
+			delete(peers, p)
+		}
 		// is there a backoff specified by the peer? if so obey it.
 		backoff := prune.GetBackoff()
 		if backoff > 0 {
